@@ -50,7 +50,11 @@ def options_strategy(placer, case):
     chips = pr.live_chips(m)
     if placer in ("sa-python", "sa-c"):
         return st.fixed_dictionaries({
-            "effort": st.sampled_from([0.0, 0.1, 0.1, 1.0, 1.0, 3.0])})
+            "effort": st.sampled_from([0.0, 0.1, 0.1, 1.0, 1.0, 3.0]),
+            # the documented progress callback: absent, observing, or asking
+            # the annealer to stop after n calls
+            "callback": st.sampled_from([None, None, "observe", "stop1",
+                                         "stop3"])})
     if placer == "hilbert":
         return st.fixed_dictionaries({"breadth_first": st.sampled_from(
             [None, True, False])})
@@ -108,6 +112,20 @@ def call_placer(case, vr, nets, machine, cons, vobj):
         else:
             from rig.place_and_route.place.sa.c_kernel import CKernel as K
             kw = {}
+        cb = opts.get("callback")
+        if cb:
+            calls = []
+            expected = set(vr)
+
+            def on_change(iteration, placements, cost, r_accept, temperature,
+                          distance_limit):
+                calls.append(iteration)
+                require(set(placements) == expected, "the placement handed "
+                        "to on_temperature_change does not cover exactly the "
+                        "vertices", {"calls": len(calls)})
+                if cb.startswith("stop") and len(calls) >= int(cb[4:]):
+                    return False
+            kw["on_temperature_change"] = on_change
         return place(vr, nets, machine, cons, effort=opts["effort"],
                      random=rng, kernel=K, **kw)
     if placer == "hilbert":
